@@ -520,7 +520,8 @@ Lemma pairk_struct ref rc0 rest R Q : ~ In 45%N ref -> Forall (fun c => (42 <= c
     Q = swap_pad (flatten_block (map (fun rq : list N * list N => pad_to mx (snd rq)) rows)
                   ++ repeat 42%N (length ref - rec_E (nth js (rc0 :: rest) rc0))) /\
     (forall e, In e (block_insertions (rc0 :: rest)) -> fst (fst e) <= rec_E (nth js (rc0 :: rest) rc0)) /\
-    length (flatten_block (map (fun rq : list N * list N => pad_to mx (snd rq)) rows)) = mx.
+    length (flatten_block (map (fun rq : list N * list N => pad_to mx (snd rq)) rows)) = mx /\
+    rows = regap (map (fun p : list N * list N => (snd p, fst p)) pairs) (sort_insertions (block_insertions (rc0 :: rest))).
 Proof.
   intros Hng Hge H. unfold block_to_seq_pair in H. remember (rc0 :: rest) as block eqn:Eb.
   destruct (all_some (map (fun rc => one_line_plus_ref true rc ref) block)) as [pairs|] eqn:Ea; [|discriminate].
@@ -613,12 +614,12 @@ Proof.
   rewrite Hmx in H. destruct (Nat.ltb_spec mx (tot BI + length ref)) as [Hlt|Hge'].
   - destruct (Nat.ltb_spec (length ref) (tot BI + length ref - mx)); [discriminate|]. injection H as <- <-.
     replace (length ref - (tot BI + length ref - mx)) with (E js) by lia. replace (tot BI + length ref - mx) with (length ref - E js) by lia.
-    split; [reflexivity|]. split; [symmetry; exact Hmx|]. split; [reflexivity|]. split; [exact Hstarts|exact HQ].
+    split; [reflexivity|]. split; [symmetry; exact Hmx|]. split; [reflexivity|]. split; [exact Hstarts|]. split; [exact HQ|reflexivity].
   - injection H as <- <-. assert (HEq : E js = length ref) by lia. change (rec_E (nth js block rc0)) with (E js).
     split; [fold Rmax; rewrite HEq, skipn_all, app_nil_r; reflexivity|].
     split; [symmetry; exact Hmx|].
     split; [rewrite HEq, Nat.sub_diag; cbn [repeat]; rewrite app_nil_r; reflexivity|].
-    split; [exact Hstarts|exact HQ].
+    split; [exact Hstarts|]. split; [exact HQ|reflexivity].
 Qed.
 
 Theorem pairk_ref_row ref block R Q : block <> [] -> ~ In 45%N ref -> Forall (fun c => (42 <= c)%N) ref ->
@@ -626,7 +627,7 @@ Theorem pairk_ref_row ref block R Q : block <> [] -> ~ In 45%N ref -> Forall (fu
   R = grow ref (Iof (block_insertions block)) (length ref) /\ length Q = length R.
 Proof.
   intros Hne Hng Hge H. destruct block as [|rc0 rest]; [contradiction|].
-  destruct (pairk_struct ref rc0 rest R Q Hng Hge H) as (pairs & rows & js & mx & _ & _ & _ & Hjs & HEr & -> & Hmx & -> & Hst & HQl).
+  destruct (pairk_struct ref rc0 rest R Q Hng Hge H) as (pairs & rows & js & mx & _ & _ & _ & Hjs & HEr & -> & Hmx & -> & Hst & HQl & _).
   set (Ej := rec_E (nth js (rc0 :: rest) rc0)) in *. set (Itot := Iof (block_insertions (rc0 :: rest))) in *. split.
   - replace (length ref) with (Ej + (length ref - Ej)) at 1 by lia. rewrite grow_app. f_equal.
     rewrite zero_tail; [|intros x Hx; apply Iof_zero; intros e He; specialize (Hst e He); lia|lia].
@@ -897,7 +898,7 @@ Theorem pairk_proj_eq_toma_pad ref block R Q : block <> [] -> ~ In 45%N ref -> F
   exists raw, seq_from_block (length ref) block = Some raw /\ proj R Q = fasta_seq true false 0 0 raw.
 Proof.
   intros Hne Hng Hge H. destruct block as [|rc0 rest]; [contradiction|]. clear Hne.
-  destruct (pairk_struct ref rc0 rest R Q Hng Hge H) as (pairs & rows & js & mx & Ea & Hrl & Hrows & Hjs & HEr & -> & Hmx & -> & Hst & HQl).
+  destruct (pairk_struct ref rc0 rest R Q Hng Hge H) as (pairs & rows & js & mx & Ea & Hrl & Hrows & Hjs & HEr & -> & Hmx & -> & Hst & HQl & _).
   set (block := rc0 :: rest) in *. set (n := length block) in *. set (Itot := Iof (block_insertions block)) in *.
   set (Ej := rec_E (nth js block rc0)) in *. set (S := gsegs ref Itot 0 Ej).
   assert (HwfS : wf_segs S) by (apply gsegs_wf; [exact Hng|lia]).
